@@ -331,6 +331,40 @@ func vfVMRecord(t *testing.T, env *vfEnv) {
 				prog = append([]vfIns{{Op: "st", R: 0, N: (n + 1) % 16, K: z}, {Op: "st", R: 1, N: (n + 2) % 16, K: z}}, prog...)
 			}
 		}
+		if tn%11 == 5 {
+			// size dimension: an unconditional jump whose 32-bit skip does not fit in 8 bits (or
+			// a conditional one with an 8-bit skip of 255) over a body of side-effecting filler,
+			// then a tail that exposes A, X and M[3]. Some skips run onto the last instruction
+			// or one past the end (NewVM has to reject those).
+			z := [2]uint32{0, 0}
+			one := vfLimbs(1)
+			n := []int{255, 256, 257, 300, 511, 512, 515, 1000}[r.Intn(8)]
+			tail := []vfIns{{Op: "aluk", Alu: "add", K: vfLimbs(1000)}, {Op: "alux", Alu: "add", K: z},
+				{Op: "ldm", R: 1, N: 3, K: z}, {Op: "alux", Alu: "add", K: z}, {Op: "reta", K: z}}
+			skip := n + []int{0, 0, 0, -1, 1, 4, 5, -256, -255}[r.Intn(9)]
+			if skip < 0 {
+				skip = n
+			}
+			prog = []vfIns{{Op: "ldc", R: 0, K: vfLimbs(vfRandWord(r))}, {Op: "ja", K: vfLimbs(uint32(skip))}}
+			if r.Intn(3) == 0 {
+				n = 254 + r.Intn(3)
+				prog[1] = vfIns{Op: "jk", Cond: vfCondList[r.Intn(8)], K: vfLimbs(vfRandWord(r)), Jt: 255, Jf: 254 + r.Intn(2)}
+				if r.Intn(2) == 0 {
+					tail = tail[4:]
+				}
+			}
+			for i := 1; i <= n; i++ {
+				switch i % 3 {
+				case 1:
+					prog = append(prog, vfIns{Op: "aluk", Alu: "add", K: one})
+				case 2:
+					prog = append(prog, vfIns{Op: "st", R: 0, N: 3, K: z})
+				default:
+					prog = append(prog, vfIns{Op: "ldc", R: 1, K: vfLimbs(7)})
+				}
+			}
+			prog = append(prog, tail...)
+		}
 		env.Emit(tn, map[string]any{"e": "prog", "prog": prog})
 		vm, err, res := vfNewVM(vfProgram(prog))
 		if res != "" {
